@@ -23,6 +23,17 @@ BUILT = {
             "collection; derived accessors and aggregate iterators expand to exactly the "
             "containment chain/paths; constructor arguments are copied; identity semantics kept.",
             "As C03; list-wrapper re-entrancy defects are reported under C16.", "4/C04"),
+    "C16": ("contract check of collections.abc mixins (parsed from the interpreter's "
+            "_collections_abc.py) against the wrapper classes; hook/validation ordering on the "
+            "CFG; re-entrancy through resolved callees",
+            "Structural: the documented subclass contracts of the abc mixins (_from_iterable, "
+            "abstract methods, primitives) are met by every collection class; variadic update "
+            "iterates its arguments; non-mutating operators neither alias nor mutate the store; "
+            "ListWrapper hooks do not run before validation and no position survives a "
+            "re-entrant hook (three known findings on the pinned tree, see known_findings.txt). "
+            "Return values/exception types of each operation vs the built-in are not decided.",
+            "collections.abc semantics as in the running interpreter's source; builtin "
+            "list/set/dict/SortedDict semantics.", "4/C16"),
 }
 
 REASON_PENDING = "check not built yet (construction phase); planned, see DESIGN.md section 4"
